@@ -57,10 +57,65 @@ def _chrom_class(name):
     return "auto" if core.isdigit() else "x" if core.upper() == "X" else "y" if core.upper() == "Y" else "other"
 
 
-def _cna(bins, names):
+ROUTES = ("fresh", "masked", "permuted", "offset")
+
+
+def _routes_enabled():
+    """development override: VERIF_C03_ROUTES=fresh restricts the construction routes (mutant demonstrations)"""
+    env = os.environ.get("VERIF_C03_ROUTES", "").strip()
+    rts = tuple(x for x in env.split(",") if x in ROUTES) if env else ROUTES
+    return rts or ROUTES
+
+
+def assign_routes(inputs, start=0):
+    """construction route of the bin table as an input dimension: rotate over the routes, record by record"""
+    rts = _routes_enabled()
+    for k, x in enumerate(inputs):
+        x["route"] = rts[(start + k) % len(rts)]
+    return inputs
+
+
+def _cna(bins, names, route="fresh"):
+    """The bin table handed to the code under test.  All routes give the SAME rows in the SAME order and differ only
+    in the row index labels:
+      fresh     CopyNumArray.from_rows: labels 0..n-1
+      masked    boolean-mask selection out of a larger table with decoy rows in between: gapped labels
+      permuted  rows entered in another order and brought back by position, no reset_index: permuted labels
+      offset    labels start at 1000
+    """
+    import numpy as np
     from cnvlib.cnary import CopyNumArray as CNA
     rows = [(names[b[0] - 1], b[1], b[2], b[3], b[5] / LU, b[6] / DU, b[4] / WU) for b in bins]
-    return CNA.from_rows(rows, columns=COLS, meta_dict={"sample_id": "s"})
+    n = len(rows)
+    meta = {"sample_id": "s"}
+    if route == "masked":
+        big, keep = [], []
+        for k, r in enumerate(rows):
+            if k % 2 == 0:                      # a decoy row in front of every other row (and of the first)
+                big.append((r[0], r[1] + 1, r[2] + 1, "decoy", 3.25, 7.0, 1.0))
+                keep.append(False)
+            big.append(r)
+            keep.append(True)
+        big.append((rows[-1][0], rows[-1][2] + 5, rows[-1][2] + 9, "decoy", 3.25, 7.0, 1.0))
+        keep.append(False)
+        arr = CNA.from_rows(big, columns=COLS, meta_dict=meta)[np.array(keep)]
+    elif route == "permuted" and n > 1:
+        perm = list(range(n))[::-1] if n < 4 else [k for k in range(n) if k % 3 == 1] + \
+            [k for k in range(n) if k % 3 == 2] + [k for k in range(n) if k % 3 == 0]
+        arr = CNA.from_rows([rows[k] for k in perm], columns=COLS, meta_dict=meta)
+        inv = [0] * n
+        for pos, k in enumerate(perm):
+            inv[k] = pos
+        arr.data = arr.data.iloc[inv]           # intended order again; the labels stay permuted
+    else:
+        arr = CNA.from_rows(rows, columns=COLS, meta_dict=meta)
+        if route in ("offset", "permuted"):
+            arr.data.index = arr.data.index + 1000
+    got = [(c, int(a), int(b), g, float(l), float(d), float(w)) for c, a, b, g, l, d, w in
+           zip(arr.chromosome, arr.start, arr.end, arr["gene"], arr["log2"], arr["depth"], arr["weight"])]
+    if got != [tuple(r) for r in rows]:
+        raise MachineryError(f"table construction route {route} did not reproduce the rows")
+    return arr
 
 
 def _enc_out(seg, names):
@@ -164,6 +219,7 @@ def execute(inp):
     from skgenome import GenomicArray
     op, names, bins = inp["op"], inp["names"], inp["bins"]
     rec = dict(inp)
+    rec.setdefault("route", "fresh")
     rec.update(surv=[False] * len(bins), sd9=0, sdseen=False, out=[], err="", arms=[], kcalls=0,
                cls=[_chrom_class(n) for n in names])
     for b in bins:
@@ -172,12 +228,18 @@ def execute(inp):
     patch = _Patch()
     tmpdir = None
     try:
-        cna = _cna(bins, names)
+        cna = _cna(bins, names, inp.get("route", "fresh"))
+        index = {(names[b[0] - 1], b[1], b[2]): k for k, b in enumerate(bins)}
+        if len(index) != len(bins):
+            raise MachineryError("C03 input has duplicate bin coordinates")
         if op == "byarm":
             try:
                 arms = []
                 for _chrom, sub in cna.by_arm(min_gap_size=inp["gap"], min_arm_bins=inp["mab"]):
-                    arms.append([int(k) + 1 for k in sub.data.index])
+                    # rows are identified by their coordinates (never by index label); a row that is not an input
+                    # bin is encoded as 0, which no arm of the specification contains
+                    arms.append([index.get((str(c), int(a), int(b)), -1) + 1
+                                 for c, a, b in zip(sub.data["chromosome"], sub.data["start"], sub.data["end"])])
                 rec["arms"] = arms
             except Exception as e:
                 rec["err"] = type(e).__name__ + ": " + str(e)[:120]
@@ -223,9 +285,6 @@ def execute(inp):
             rec["out"] = _enc_out(seg, names)
         except Exception as e:   # an exception is an outcome the specification judges (clause noerr)
             rec["err"] = type(e).__name__ + ": " + str(e)[:120]
-        index = {(names[b[0] - 1], b[1], b[2]): k for k, b in enumerate(bins)}
-        if len(index) != len(bins):
-            raise MachineryError("C03 input has duplicate bin coordinates")
         calls = recd.all_calls()
         rec["kcalls"] = len(calls)
         for call in calls:
@@ -515,7 +574,10 @@ def _py_arms(cbins, gap=100000, mab=50):
 
 def _count(ctx, rec):
     ctx.count_input([rec["op"], rec["bins"], rec["skiplow"], rec["skipout"], rec["minw"], rec["procs"], rec["gap"],
-                     rec["mab"], rec["kern"], rec["forced"]], nontrivial=len(rec["bins"]) > 1)
+                     rec["mab"], rec["kern"], rec["forced"], rec["route"]], nontrivial=len(rec["bins"]) > 1)
+    ctx.bump(f"route_{rec['route']}")
+    ctx.bump(f"route_{rec['route']}_{'byarm' if rec['op'] == 'byarm' else 'hmm' if rec['op'] in HMM else rec['op']}"
+             f"{'_direction1' if rec['forced'] or rec['gap'] != 100000 else ''}")
     if rec["op"] == "byarm":
         return
     bins, surv = rec["bins"], rec["surv"]
@@ -617,7 +679,9 @@ def run(ctx: Ctx):
                 "breakpoints, and every by_arm table replayed through GenomicArray.by_arm; direction 2: seeded bin tables "
                 "(1..400 bins x 1..6 chromosomes) x method x skip_low x skip_outliers x min_weight x processes through the "
                 "unmodified do_segmentation. A case is distinct by (method, bins, filters, processes, by_arm constants, "
-                "forced cuts); non-trivial when the table has >= 2 bins.")
+                "forced cuts, construction route); non-trivial when the table has >= 2 bins. The bin table handed to the code is "
+                "built, rotating per record, by one of four routes (fresh / masked / permuted / offset) that give the same "
+                "rows in the same order and differ only in the row index labels.")
     names2 = ["chr1", "chrX"]
     if thorough:
         shard = ctx.seed % 4
@@ -655,7 +719,7 @@ def run(ctx: Ctx):
         cfg = ctx.cfg(f"mc-{k}", spec="Spec", invariants=["DesignOK", "DesignNoStretchOnlyAtEdges"],
                       constants=_mc_constants(sc))
         r, states = ctx.mc("MC_Segments", cfg, timeout=3000, coverage=False)   # -coverage makes this spec ~100x slower
-        inputs = _inputs_from_states(states, sc)
+        inputs = assign_routes(_inputs_from_states(states, sc), start=k)
         if len(inputs) * 2 != r.distinct:
             raise MachineryError(f"dump replay: {len(inputs)} ret states parsed, TLC reports {r.distinct} states")
         recs = ctx.execute(execute, inputs)
@@ -675,7 +739,7 @@ def run(ctx: Ctx):
                            "kern": []})
     if len(inputs) * 2 != r.distinct:
         raise MachineryError(f"dump replay (by_arm): {len(inputs)} ret states parsed, TLC reports {r.distinct} states")
-    all_records += ctx.execute(execute, inputs)
+    all_records += ctx.execute(execute, assign_routes(inputs, start=1))
     ctx.notes["scope_arm"] = {"scope": sc["name"], "tlc_states": r.distinct, "replayed": len(inputs)}
     ctx.exhaustive = "; ".join([s["name"] for s in scopes] + [sc["name"]]) + \
         " -- every dumped transition replayed (numeric kernel forced to the enumerated breakpoints)"
@@ -698,6 +762,7 @@ def run(ctx: Ctx):
             seen.add(key)
             d2.append({"op": "byarm", "bins": x["bins"], "names": x["names"], "skiplow": False, "skipout": 0, "minw": 0,
                        "procs": 1, "gap": 100000, "mab": 50, "forced": False, "kern": []})
+    d2 = assign_routes([dict(x) for x in d2], start=ctx.seed)
     rnd = _run_mixed(ctx, d2)
     all_records += rnd
     for rec in all_records:
@@ -715,7 +780,9 @@ def run(ctx: Ctx):
                         "to log the robust spread",
                         "direction 1 only: numeric kernel replaced (haar.UnifyLevels / hmm.hmm_get_model) and "
                         "GenomicArray.by_arm.__defaults__ scaled down; direction 2 runs the code unmodified",
-                        "pandas DataFrame construction in the harness", "JSON encoding (ints < 2^31)"]
+                        "pandas DataFrame construction in the harness (four index-label routes; rows re-read and compared "
+                        "after construction; observations are matched to bins by coordinates, never by label)",
+                        "JSON encoding (ints < 2^31)"]
     ctx.assumptions = ["bin tables are in chromosome blocks, sorted, non-overlapping, values on the grids (premise)",
                        "HMM methods: robust autosomal spread > 0 (premise; otherwise pomegranate raises "
                        "ZeroDivisionError / there is no autosomal bin to build the model from); such records are "
